@@ -9,7 +9,8 @@ M = 2 ** 64 - 1
 
 SEQ_KINDS = ["seq", "seq_c", "seq_c0", "seq_adapt", "seq_inv", "seq_sel9", "seq_small", "seq_small3"]
 DICT_KINDS = ["dict", "dict_c", "dict_adapt", "dict_small"]
-SEQDICT_KINDS = ["seqdict", "seqdict_c", "seqdict_adapt", "seqdict_inv", "seqdict_sel9", "seqdict_small"]
+SEQDICT_KINDS = ["seqdict", "seqdict_c", "seqdict_adapt", "seqdict_inv", "seqdict_sel9", "seqdict_small", "seqdict_map",
+                 "seqdict_map2"]
 ALL_KINDS = ["plain"] + SEQ_KINDS + DICT_KINDS + SEQDICT_KINDS
 FULL_ONLY = {"seq_small", "seq_small3", "dict_small", "seqdict_small"}
 
